@@ -57,7 +57,7 @@ type Prop struct {
 
 var props = map[string]*Prop{}
 
-func Register(p *Prop) { props[p.ID] = p }
+func Register(p *Prop)       { props[p.ID] = p }
 func Lookup(id string) *Prop { return props[id] }
 
 type Ctx struct {
@@ -100,7 +100,7 @@ func ModelExe() string {
 	if p := os.Getenv("OTTOMODEL"); p != "" {
 		return p
 	}
-	return "/verif/lean/.lake/build/bin/ottomodel"
+	return ""
 }
 
 // RunModel pipes the lines through `ottomodel <id>` (in parallel chunks) and parses replies.
@@ -128,7 +128,11 @@ func RunModel(id string, lines []string) ([]Reply, error) {
 		wg.Add(1)
 		go func(lo, hi int) {
 			defer wg.Done()
-			cmd := exec.Command(ModelExe(), id)
+			exe := ModelExe()
+			if exe == "" {
+				exe = "/verif/lean/.lake/build/bin/ottomodel_" + strings.ToLower(id)
+			}
+			cmd := exec.Command(exe)
 			cmd.Stdin = strings.NewReader(strings.Join(lines[lo:hi], "\n") + "\n")
 			cmd.Stderr = os.Stderr
 			b, err := cmd.Output()
@@ -259,24 +263,24 @@ type Violation struct {
 }
 
 type Result struct {
-	Property       string         `json:"property"`
-	Tier           string         `json:"tier"`
-	Seed           uint64         `json:"seed"`
-	Evaluations    int            `json:"evaluations"`
-	Nontrivial     int            `json:"distinct_nontrivial"`
-	Agree          int            `json:"impl_eq_model_eq_spec"`
-	ModelStale     int            `json:"model_stale"`
-	ModelStaleEx   []string       `json:"model_stale_examples"`
-	GapNotes       int            `json:"model_ne_spec_outside_dev_but_impl_eq_spec"`
-	ByDev          map[string]int `json:"by_dev"`
-	Dist           map[string]int `json:"distribution"`
-	KnownHit       map[string]int `json:"known_findings_hit"`
+	Property       string            `json:"property"`
+	Tier           string            `json:"tier"`
+	Seed           uint64            `json:"seed"`
+	Evaluations    int               `json:"evaluations"`
+	Nontrivial     int               `json:"distinct_nontrivial"`
+	Agree          int               `json:"impl_eq_model_eq_spec"`
+	ModelStale     int               `json:"model_stale"`
+	ModelStaleEx   []string          `json:"model_stale_examples"`
+	GapNotes       int               `json:"model_ne_spec_outside_dev_but_impl_eq_spec"`
+	ByDev          map[string]int    `json:"by_dev"`
+	Dist           map[string]int    `json:"distribution"`
+	KnownHit       map[string]int    `json:"known_findings_hit"`
 	KnownExample   map[string]string `json:"known_findings_example"`
-	Samples        []string       `json:"samples"`
-	Violations     []Violation    `json:"violations"`
-	ViolationCount int            `json:"violation_count"`
-	ViolationsBy   map[string]int `json:"violations_by_dev_and_op"`
-	Error          string         `json:"error,omitempty"`
+	Samples        []string          `json:"samples"`
+	Violations     []Violation       `json:"violations"`
+	ViolationCount int               `json:"violation_count"`
+	ViolationsBy   map[string]int    `json:"violations_by_dev_and_op"`
+	Error          string            `json:"error,omitempty"`
 }
 
 // Classify applies the table of DESIGN.md §0 step 4.
